@@ -10,7 +10,7 @@ from common import ModelError, R, Rmat, flmat, max_rel_err
 
 from common import wiring_pre_build as pre_build  # noqa: E402,F401
 
-LEAN_MODULES = ["PyomaVerif.Props.C03", "PyomaVerif.Props.C01", "PyomaVerif.Props.WiringRun", "PyomaVerif.Props.C03C11", "PyomaVerif.Props.C03E2E"]
+LEAN_MODULES = ["PyomaVerif.Props.C03", "PyomaVerif.Props.C01", "PyomaVerif.Props.WiringRun", "PyomaVerif.Props.C03C11", "PyomaVerif.Props.C03E2E", "PyomaVerif.Props.C03Stored"]
 THEOREMS = [
     # end to end: per-setup records -> Hankel -> per-setup factor -> re-basing -> Obs_all -> realisation -> extraction
     # (Props/C03E2E.lean, Lemmas/MsFreeVib.lean)
@@ -57,6 +57,9 @@ THEOREMS = [
     "PV.Multi.flatMap_blocks_get",
     "PV.C01.C01_realisation_fast",
     "PV.realisation_similar",
+    # depth round (audit C03 gap 3): the multi-setup conclusion composed with the hard criteria -> the STORED tables
+    "PV.C03Stored.C03_stored",
+    "PV.C03Stored.Ex.stored",
 ]
 RULE = (
     "correspondence: gen.pre_multisetup (all ordered reference subsets incl. duplicates/out-of-range: accepted/rejected and the "
